@@ -7,6 +7,8 @@ TransformerEngineLineOCR.transcribe_batch (engine object built with object.__new
 Space (operation sequences on a live model): events = transcribe(batch_j, cached in {True, False}) over a batch alphabet
 (3 lines x 64 px, other 3 x 64, 2 x 64, 1 x 96, 3 x 96, 3 x 64 sharing one line with the first); ALL histories up to depth D,
 per model; models = fixed list over depth {1,2,3} x heads {1,2,4} x width {16,32} x seeds.
+The same histories (smaller batch alphabet) with the encoder output of every batch written into ONE retained tensor per shape, refilled in place
+and handed to the decoder (`one_memory`: the object is the same, its contents are those of the current batch).
 
 Oracle per event and line: per-step scores equal (1e-4) to (a) the same line decoded alone, uncached, by a pristine deep copy of the
 model and (b) the teacher-forced masked forward pass over the emitted symbols; transcripts equal (when every deciding arg-max
@@ -21,7 +23,7 @@ ID = 'C20'
 
 MANIFEST = dict(
     technique='explicit-state exploration of all transcribe-batch histories (cached / uncached) on live real TransformerOCR models with random weights; differential oracles: line decoded alone by a pristine copy, and the teacher-forced masked forward pass',
-    text='Bounded exhaustive: for each of 6 (quick) / 18 (thorough) random-weight models (depth 1-3, heads 1/2/4, width 16/32) every history of up to 2 (quick) / 3 (thorough) events over 12 events (6 batches x cached/uncached) is executed on ONE live model (caches survive between calls); for the last event of every history each line\'s per-step scores must equal those of the line decoded alone by a pristine copy and those of the teacher-forced forward pass over the emitted symbols (1e-4), transcripts must agree, decoding must stop within the length cap and transcriptions must be free of boundary / ignore symbols. Added sub-sweeps: histories of run_ocr calls (1088 px padding) on one engine against a fresh engine and single lines, batches in which 255 / 256 / 257 lines survive the first step, 640 px lines running to the 160-step cap on 2-3 layer decoders (recomputed == cached == teacher-forced), and the network from build_net on 1920 / 2112 px crops. Entry-point histories: every sequence of up to 2 (quick) / 3 (thorough) calls over run_ocr / transcribe_batch cached / uncached x 3 batches (incl. lines whose transcription is empty because they end at the first step) on one engine; the last call must equal the same call on a fresh engine and the uncached scores, and run_ocr\'s text must be exactly the decoded symbols. Wave 10: uninitialised cache memory is poisoned with NaN (and all comparisons are NaN-aware); the weights of another checkpoint loaded in place between two batches; binarised crops stored as 0 / 1 alone and next to ordinary crops.',
+    text='Bounded exhaustive: for each of 6 (quick) / 18 (thorough) random-weight models (depth 1-3, heads 1/2/4, width 16/32) every history of up to 2 (quick) / 3 (thorough) events over 12 events (6 batches x cached/uncached) is executed on ONE live model (caches survive between calls); for the last event of every history each line\'s per-step scores must equal those of the line decoded alone by a pristine copy and those of the teacher-forced forward pass over the emitted symbols (1e-4), transcripts must agree, decoding must stop within the length cap and transcriptions must be free of boundary / ignore symbols. Added sub-sweeps: histories of run_ocr calls (1088 px padding) on one engine against a fresh engine and single lines, batches in which 255 / 256 / 257 lines survive the first step, 640 px lines running to the 160-step cap on 2-3 layer decoders (recomputed == cached == teacher-forced), and the network from build_net on 1920 / 2112 px crops. Entry-point histories: every sequence of up to 2 (quick) / 3 (thorough) calls over run_ocr / transcribe_batch cached / uncached x 3 batches (incl. lines whose transcription is empty because they end at the first step) on one engine; the last call must equal the same call on a fresh engine and the uncached scores, and run_ocr\'s text must be exactly the decoded symbols. Wave 10: uninitialised cache memory is poisoned with NaN (and all comparisons are NaN-aware); the weights of another checkpoint loaded in place between two batches; binarised crops stored as 0 / 1 alone and next to ordinary crops. Wave 11: a fixed-shape pipeline - TransformerOCR.encode of the live network writes the encoder output of every batch into ONE retained tensor per shape (refilled in place) which the decoder is then given; every history of up to 2 (quick) / 3 (thorough) events over 3 (quick) / 4 (thorough) batches x cached / uncached, same per-line oracles (line alone on a pristine copy, teacher-forced pass); and in every history the results of the earlier calls, kept by the caller, must still be what they were when returned.',
     note='Random weights (no trained model), CPU, small dimensions; the convolutional front-end is a stub; beam-search use of cache_index_select is not covered.',
     ref='3/C20')
 
@@ -41,8 +43,12 @@ WIDE_MODELS = [(1, 2, 16, 1, 'wide'), (2, 2, 16, 0, 'wide')]
 RO_BATCHES = {'a': (256, [21, 22]), 'b': (512, [23, 24]), 'c': (256, [25, 26]), 'd': (512, [27]), 'e': (1088, [28, 29])}    # run_ocr input batches
 RO_NAMES = sorted(RO_BATCHES)
 BIG = [('n255', 255, 0), ('n256', 256, 0), ('n257', 257, 0), ('n256+3', 256, 3)]      # (name, lines that survive step 0, lines that end at step 0)
-BOUNDS = {'quick': dict(depth=2, models=MODELS_Q, ro_depth=2, ro_models=WIDE_MODELS[:1], big_models=MODELS_Q[:2]),
-          'thorough': dict(depth=3, models=MODELS_T, ro_depth=3, ro_models=WIDE_MODELS, big_models=MODELS_Q)}
+# one encoder-output buffer per shape, refilled in place for every batch (a fixed-shape pipeline): events = (batch, cached) over these batches
+MEM_BATCHES = {'quick': ['A', 'B', 'E'], 'thorough': ['A', 'B', 'C', 'E']}
+BOUNDS = {'quick': dict(depth=2, models=MODELS_Q, ro_depth=2, ro_models=WIDE_MODELS[:1], big_models=MODELS_Q[:2], mem_depth=2, mem_models=MODELS_Q,
+                        mem_events=[(b, c) for b in MEM_BATCHES['quick'] for c in (True, False)]),
+          'thorough': dict(depth=3, models=MODELS_T, ro_depth=3, ro_models=WIDE_MODELS, big_models=MODELS_Q, mem_depth=3, mem_models=MODELS_T,
+                           mem_events=[(b, c) for b in MEM_BATCHES['thorough'] for c in (True, False)])}
 BOUNDS['replay'] = BOUNDS['thorough']
 TOL = 1e-4
 
@@ -182,6 +188,9 @@ def shards(tier):
     for mi in range(len(BOUNDS[tier]['big_models'])):
         for bi in range(len(BIG)):
             out.append({'big_model': mi, 'big': bi})
+    for mi in range(len(BOUNDS[tier]['mem_models'])):
+        for first in range(len(BOUNDS[tier]['mem_events'])):
+            out.append({'mem_model': mi, 'first': first})
     for spec in LONGRUN_MODELS:
         out.append({'longrun': list(spec)})
     for mi in range(len(MIX_MODELS)):
@@ -212,6 +221,13 @@ def run_shard(shard, ctx, tier):
         for L in range(1, b['ro_depth'] + 1):
             for rest in itertools.product(range(len(RO_NAMES)), repeat=L - 1):
                 guarded_check(mod, {'model': list(spec), 'run_ocr': list(rest) + [shard['first']]}, ctx)
+        return
+    if 'mem_model' in shard:
+        spec = b['mem_models'][shard['mem_model']]
+        ev = [EVENTS.index(tuple(e)) for e in b['mem_events']]
+        for L in range(1, b['mem_depth'] + 1):
+            for rest in itertools.product(ev, repeat=L - 1):
+                guarded_check(mod, {'model': list(spec), 'hist': [ev[shard['first']]] + list(rest), 'one_memory': True}, ctx)
         return
     if 'longrun' in shard:
         guarded_check(mod, {'longrun': shard['longrun']}, ctx)
@@ -629,6 +645,27 @@ def check_reload(case, ctx):
     ctx.tag('weights-reloaded-in-place-between-batches')
 
 
+def one_memory_tensor(net):
+    """a caller with a fixed-shape pipeline: the encoder output of every batch is written into ONE retained tensor per shape (refilled in place),
+    and that tensor is what the decoder is given - TransformerOCR.encode of this network object hands out the retained tensor. Returns a counter
+    dict: 'refills' = number of times a tensor that had been decoded before was refilled and handed out again"""
+    inner = net.encode
+    bufs, stat = {}, {'refills': 0, 'last_refilled': False}
+
+    def encode(X):
+        out = inner(X)
+        key = (tuple(out.shape), out.dtype)
+        stat['last_refilled'] = key in bufs
+        if key in bufs:
+            bufs[key].copy_(out)
+            stat['refills'] += 1
+        else:
+            bufs[key] = out.clone()
+        return bufs[key]
+    net.encode = encode
+    return stat
+
+
 def check_case(case, ctx):
     import torch
     if 'reload' in case:
@@ -646,22 +683,35 @@ def check_case(case, ctx):
     spec = case['model']
     hist = [EVENTS[i] for i in case['hist']]
     net = copy.deepcopy(pristine(spec))
+    one_mem = bool(case.get('one_memory'))
+    mem = one_memory_tensor(net) if one_mem else None
     eng = make_engine(net)
-    K = f'{ID}/depth{spec[0]}'
+    K = f'{ID}/one-encoder-output-tensor-refilled-in-place/depth{spec[0]}' if one_mem else f'{ID}/depth{spec[0]}'
     res = None
+    kept = []                      # (event, the result object the caller was given, a copy of it taken at once)
     with torch.no_grad():
         for name, cached in hist:
             imgs = batch_images(name)
             steps_cap = imgs.shape[-1] // 4 + 2
             with ctx.time_limit(20):
                 res = eng.transcribe_batch(imgs.copy(), is_cached=cached)
+            kept.append(((name, cached), res, ([o.clone() for o in res[0]], res[1].clone())))
     ctx.executed(len(hist))
-    ctx.state((tuple(spec), cache_state(net), tuple(hist[-1])))
+    ctx.state((tuple(spec), cache_state(net), tuple(hist[-1])) + (('one-memory', mem['last_refilled']) if one_mem else ()))
     name, cached = hist[-1]
     outs, logits = res
     logits = logits.numpy()
     w, seeds = BATCHES[name]
     desc = f'model (depth,heads,width,seed)={tuple(spec)}, history {hist}, last batch {name} ({len(seeds)} lines x {w} px)'
+    if one_mem:
+        desc += ' [the encoder output of every batch is written into one retained tensor per shape, which the decoder is given]'
+    # the caller kept the results of the earlier calls: they must still be what they were when they were returned
+    for ev, (o_now, l_now), (o_then, l_then) in kept[:-1]:
+        same = len(o_now) == len(o_then) and all(a.shape == b_.shape and bool((a == b_).all()) for a, b_ in zip(o_now, o_then))
+        if not same or l_now.shape != l_then.shape or not np.array_equal(l_now.numpy(), l_then.numpy(), equal_nan=True):     # (a NaN that was a NaN is unchanged)
+            ctx.violation('independent-of-earlier-batches', f'{K}/result-of-an-earlier-call-changed-by-a-later-call',
+                          f'{desc}: the transcriptions / scores returned for {ev} are no longer what they were when that call returned')
+            return
     if len(outs) != len(seeds) or logits.shape[0] != len(seeds):
         ctx.violation('per-line-results', f'{K}/result-count', f'{desc}: {len(outs)} transcriptions / {logits.shape[0]} score rows for {len(seeds)} lines')
         return
@@ -718,7 +768,7 @@ def check_case(case, ctx):
             return
     ctx.outcome((name, tuple(finish)))
     if len(set(finish)) > 1:
-        ctx.nontrivial((tuple(spec), tuple(case['hist'])), 'lines-finish-at-different-steps')
+        ctx.nontrivial((tuple(spec), tuple(case['hist'])) + (('one-memory',) if one_mem else ()), 'lines-finish-at-different-steps')
     if any(f == 0 for f in finish) and any(f > 0 for f in finish):
         ctx.tag('line-finished-at-first-step-while-others-continue')
     if any(f >= logits.shape[1] for f in finish):
@@ -727,7 +777,14 @@ def check_case(case, ctx):
         ctx.tag('ignore-symbol-emitted-mid-line')
     if any(sd >= 1000 for sd in seeds):
         ctx.tag('binarised-crop-in-the-batch')
+    if one_mem:
+        ctx.tag('encoder-output-tensor-decoded-first-time' if not mem['last_refilled'] else 'encoder-output-tensor-refilled-in-place-and-decoded-again')
+        if mem['last_refilled'] and cached:
+            ctx.tag('encoder-output-tensor-refilled-in-place-and-decoded-again-cached')
+        if mem['refills'] and not mem['last_refilled']:
+            ctx.tag('encoder-output-tensor-of-another-shape-after-a-refilled-one')
     if len(hist) > 1:
+        ctx.tag('earlier-result-looked-at-again-after-a-later-call')
         pn, pc = hist[-2]
         if len(BATCHES[pn][1]) == len(seeds):
             ctx.tag('previous-batch-of-same-size' + ('-and-width' if BATCHES[pn][0] == w else '-other-width'))
@@ -744,10 +801,13 @@ def describe(tier):
                 'state = (model, shapes of the caches left in every decoder layer, last event). Non-trivial: histories whose last batch has lines '
                 'finishing at different steps; counters for lines finishing at step 0, hitting the cap, and stale-cache situations.',
         'bounds': {'depth': b['depth'], 'models': [list(m) for m in b['models']]},
-        'alphabets': {'batches(width, line seeds)': BATCHES, 'events': len(EVENTS)},
+        'alphabets': {'batches(width, line seeds)': BATCHES, 'events': len(EVENTS),
+                      'one-retained-encoder-output-tensor histories': {'events': [list(e) for e in b['mem_events']], 'depth': b['mem_depth'], 'models': len(b['mem_models'])}},
         'assumptions': ['scores compared within 1e-4 (float32)', 'transcripts compared only when every deciding arg-max margin exceeds 1e-3'],
         'min_nontrivial': 50,
-        'required_tags': ['weights-reloaded-in-place-between-batches', 'binarised-crop-in-the-batch', 'entry-point-histories', 'transcribe_batch-after-run_ocr-of-the-same-batch-size', 'run_ocr-batch-with-an-empty-transcription', 'long-run-compared-beyond-128-steps', 'network-from-build_net-on-the-widest-crops', 'run_ocr-histories', 'run_ocr-narrower-batch-after-a-wider-one', 'batch-at-a-byte-boundary', 'lines-finish-at-different-steps', 'line-hit-the-length-cap', 'previous-batch-of-same-size-and-width',
+        'required_tags': ['encoder-output-tensor-refilled-in-place-and-decoded-again', 'encoder-output-tensor-refilled-in-place-and-decoded-again-cached',
+                          'encoder-output-tensor-decoded-first-time', 'earlier-result-looked-at-again-after-a-later-call',
+                          'weights-reloaded-in-place-between-batches', 'binarised-crop-in-the-batch', 'entry-point-histories', 'transcribe_batch-after-run_ocr-of-the-same-batch-size', 'run_ocr-batch-with-an-empty-transcription', 'long-run-compared-beyond-128-steps', 'network-from-build_net-on-the-widest-crops', 'run_ocr-histories', 'run_ocr-narrower-batch-after-a-wider-one', 'batch-at-a-byte-boundary', 'lines-finish-at-different-steps', 'line-hit-the-length-cap', 'previous-batch-of-same-size-and-width',
                           'previous-batch-of-same-size-other-width', 'cached-and-uncached-calls-mixed',
                           'line-finished-at-first-step-while-others-continue', 'ignore-symbol-emitted-mid-line'],
     }
